@@ -52,6 +52,16 @@ def run(ctx):
             for j, ev in enumerate(evs):
                 traces.append({"id": "%s#%d.%d" % (t, k, j), "events": [ev]})
                 ctx.count_case((t, k, j, json.dumps(ev["orig"], sort_keys=True)), nontrivial=nontrivial)
+    # MetaModules exposing all 96 / 95 user-defined controllers (the last one out of step with its embedded target)
+    for k, nud in enumerate([96, 96, 95, 89]):
+        gen.FORCE_UDC = nud
+        try:
+            mm96 = gen.rand_module(rnd, cl["MetaModule"], spec, depth=1, in_project=False)
+        finally:
+            gen.FORCE_UDC = None
+        for j, ev in enumerate([fmt.roundtrip_event(api.Synth(mm96), spec, w=True), fmt.clone_event(mm96, spec)]):
+            traces.append({"id": "MetaModule-udc%d#%d.%d" % (nud, k, j), "events": [ev]})
+            ctx.count_case(("udc", nud, k, j), nontrivial=True)
     # a synth without a module refuses to serialize
     buf = []
     class Sink:
